@@ -1,5 +1,8 @@
 import Rtcm.Model.Message
 import Rtcm.Proofs.Scan
+import Rtcm.Proofs.NoPanicDec
+import Rtcm.Gen.Messages
+import Rtcm.Proofs.WFTable
 /-!
 # C02  Decoding is total: no panic and no hang on any byte input
 -/
@@ -36,5 +39,160 @@ functions of the model; every delivered frame consumes at least 6 bytes, so the 
 theorem scan_total (d : List UInt8) : (scan d).1 ≤ d.length := scan_consumed_le d
 
 theorem iter_frames_bounded (d : List UInt8) : (drainAll d).2.length ≤ d.length := drainAll_rem_le d
+
+/-! ### The body decoder never panics (both build profiles: `cfg` is universally quantified)
+
+`WF.WFFrag : Frag → Bool` (Rtcm/Proofs/WFFrag.lean) collects the static facts used: every `df!`
+leaf / MSM column / count field satisfies `DfWf.wf`; count prefixes are 1..=8 (strings) and 1..=16
+(vectors) bits wide; a `msg_len_middle!` count is an unscaled integer field without invalid marker;
+MSM signal tables satisfy `C18.tableOk`. -/
+
+open Rtcm.WF Rtcm.NoPanic Rtcm.Interp
+
+/-- every layout of the regenerated message table is well formed (kernel evaluation) -/
+theorem table_wfFrag : Gen.messageTable.all (fun r => WFFrag r.frag) = true := WF.table_wfFrag
+
+theorem wfFrag_of_mem {row : MsgRow} (h : row ∈ Gen.messageTable) : WFFrag row.frag = true :=
+  List.all_eq_true.mp table_wfFrag row h
+
+/-- The body decoder of a well-formed layout never panics: on any buffer (not even required to
+consist of bytes), at any cursor, with and without overflow checks. -/
+theorem decFrag_no_panic' (f : Frag) (hw : WFFrag f = true) (cfg : Cfg) (c : Cur) (w : String) :
+    decFrag cfg f c ≠ .panic w :=
+  decFrag_np cfg f hw c w
+
+/-- the statement in the shape of the proof plan (the byte hypothesis is not needed) -/
+theorem decFrag_no_panic (f : Frag) (hw : WFFrag f = true) (cfg : Cfg) (c : Cur)
+    (_hbytes : ∀ d ∈ c.data, d < 256) (w : String) : decFrag cfg f c ≠ .panic w :=
+  decFrag_np cfg f hw c w
+
+theorem decFields_no_panic (fs : Fields) (hw : WFFields fs = true) (cfg : Cfg) (c : Cur) (w : String) :
+    decFields cfg fs c ≠ .panic w :=
+  decFields_np cfg fs hw c w
+
+/-- `Message::from_message_frame` never panics, for every frame value whatsoever and both build
+profiles, with the regenerated message table. -/
+theorem decodeFrame_no_panic (cfg : Cfg) (f : Frame) (w : String) :
+    decodeFrame cfg Gen.messageTable f ≠ .panic w := by
+  unfold decodeFrame
+  split
+  · intro h; cases h
+  · split
+    · intro h; cases h
+    · next row hrow =>
+      have hmem : row ∈ Gen.messageTable := List.mem_of_find?_eq_some hrow
+      have hnp := decFrag_np cfg row.frag (wfFrag_of_mem hmem)
+        { data := f.data.map (·.toNat), off := 12 }
+      split
+      · intro h; cases h
+      · intro h; cases h
+      · next w' hw' => exact absurd hw' (hnp w')
+
+/-- the four documented outcomes -/
+def Documented (m : Msg) : Prop :=
+  m = .empty ∨ m = .corrupt ∨ (∃ n, m = .notSupported n) ∨ (∃ n toks, m = .typed n toks)
+
+/-- every frame decodes to one of the four documented outcomes -/
+theorem decodeFrame_total (cfg : Cfg) (f : Frame) :
+    ∃ m, decodeFrame cfg Gen.messageTable f = .ok m ∧ Documented m := by
+  rcases decode_outcomes cfg Gen.messageTable f with ⟨w, h⟩ | h | h | ⟨n, h⟩ | ⟨n, toks, h⟩
+  · exact absurd h (decodeFrame_no_panic cfg f w)
+  · exact ⟨_, h, Or.inl rfl⟩
+  · exact ⟨_, h, Or.inr (Or.inl rfl)⟩
+  · exact ⟨_, h, Or.inr (Or.inr (Or.inl ⟨n, rfl⟩))⟩
+  · exact ⟨_, h, Or.inr (Or.inr (Or.inr ⟨n, toks, rfl⟩))⟩
+
+/-- Headline: for every byte string, the scanner / iterator terminates (they are total functions,
+`scan_total`, `iter_frames_bounded`) and every frame they deliver (caller protocol `drainAll`, and
+the iterator `iterFrames`) decodes without panic, in both build profiles, to one of Empty, Corrupt,
+NotSupported(n) or a typed message. -/
+theorem scan_decode_total (cfg : Cfg) (d : List UInt8) :
+    (∀ f ∈ (drainAll d).1, ∃ m, decodeFrame cfg Gen.messageTable f = .ok m ∧ Documented m) ∧
+    (∀ f ∈ (iterFrames d).1, ∃ m, decodeFrame cfg Gen.messageTable f = .ok m ∧ Documented m) :=
+  ⟨fun f _ => decodeFrame_total cfg f, fun f _ => decodeFrame_total cfg f⟩
+
+/-! ### Every floating-point field of a decoded message is finite
+
+`FinIn fmt toks`: every `.flt` token of `toks` is the bit pattern of a finite datum of format `fmt`.
+Float values enter a decoded message in exactly three places: `Df.decode` of a float field (`df`
+leaves and MSM satellite / signal columns; format `fmtOf s.dt`), and the `f32` biases of the
+1059 / 1065 / 1230 lists. -/
+
+/-- a `df` leaf: every decoded token is finite in the field's own float format (and never `-0`,
+`C08.df_decoded_finite`); integer fields produce no float token -/
+theorem decoded_floats_finite_df (cfg : Cfg) (s : DfSpec) (hw : WFFrag (.df s) = true) (c : Cur)
+    (toks : List Tok) (c' : Cur) (h : decFrag cfg (.df s) c = .ok (toks, c')) :
+    FinIn (Df.fmtOf s.dt) toks := by
+  unfold WFFrag at hw
+  unfold decFrag at h
+  exact dfDecode_finite cfg s c hw toks c' h
+
+/-- MSM columns: column `j` of the satellite (signal) table holds only finite data of the format of
+field `j` -/
+theorem decoded_floats_finite_msm_columns (cfg : Cfg) (n : Nat) (fs : List (String × DfSpec))
+    (hw : wfSpecs fs = true) (c : Cur) (cols : List (List (List Tok))) (c' : Cur)
+    (h : Msm.decColumns cfg n fs c = .ok (cols, c')) :
+    List.Forall₂ (fun f col => ∀ t ∈ col, FinIn (Df.fmtOf f.2.dt) t) fs cols :=
+  decColumns_finite cfg n fs hw c cols c' h
+
+/-- bias lists: every `bias_m` of a decoded 1059 / 1065 / 1230 list is a finite `f32` -/
+theorem decoded_floats_finite_bias (cfg : Cfg) (f : Frag)
+    (hf : (∃ cap tbl, f = .bias1059 cap tbl) ∨ (∃ cap tbl, f = .bias1065 cap tbl) ∨ f = .bias1230)
+    (c : Cur) (toks : List Tok) (c' : Cur) (h : decFrag cfg f c = .ok (toks, c')) :
+    FinIn SoftFloat.binary32 toks := by
+  rcases hf with ⟨cap, tbl, rfl⟩ | ⟨cap, tbl, rfl⟩ | rfl
+  · unfold decFrag at h
+    split at h
+    · next es c1 hd =>
+      cases h
+      exact biasToks_finite true es (biasDecode_finite cfg _ c es _ hd)
+    · cases h
+    · cases h
+  · unfold decFrag at h
+    split at h
+    · next es c1 hd =>
+      cases h
+      exact biasToks_finite true es (biasDecode_finite cfg _ c es _ hd)
+    · cases h
+    · cases h
+  · unfold decFrag at h
+    split at h
+    · next es c1 hd =>
+      cases h
+      exact biasToks_finite false es (decode1230_finite cfg c es _ hd)
+    · cases h
+    · cases h
+
+/-- Every floating-point field of a decoded message is finite, for every well-formed layout.
+`FinFrag f toks` (Rtcm/Proofs/NoPanicDec.lean) reads: `toks` splits along the layout `f` — field by
+field for `msg!`, element by element for the list forms, row by row and column by column for an MSM
+segment — and every `.flt` token is the bit pattern of a finite datum *in the format of the field
+that produced it* (`fmtOf s.dt` for a `df!` field, `f32` for the bias lists). -/
+theorem decoded_floats_finite (cfg : Cfg) (f : Frag) (hw : WFFrag f = true) (c : Cur)
+    (toks : List Tok) (c' : Cur) (h : decFrag cfg f c = .ok (toks, c')) : FinFrag f toks :=
+  decFrag_finite cfg f hw c toks c' h
+
+/-- instantiated for `Message::from_message_frame` with the regenerated table -/
+theorem decodeFrame_floats_finite (cfg : Cfg) (fr : Frame) (n : Nat) (toks : List Tok)
+    (h : decodeFrame cfg Gen.messageTable fr = .ok (.typed n toks)) :
+    ∃ row ∈ Gen.messageTable, row.number = n ∧ FinFrag row.frag toks := by
+  unfold decodeFrame at h
+  split at h
+  · cases h
+  · next n' _ =>
+    split at h
+    · cases h
+    · next row hrow =>
+      have hmem : row ∈ Gen.messageTable := List.mem_of_find?_eq_some hrow
+      have hnum : (row.number == n') = true := by
+        unfold findRow at hrow
+        have := List.find?_some hrow
+        exact this
+      split at h
+      · next toks' c' hd =>
+        cases h
+        exact ⟨row, hmem, by simpa using hnum, decFrag_finite cfg row.frag (wfFrag_of_mem hmem) _ _ _ hd⟩
+      · cases h
+      · cases h
 
 end Rtcm.C02
